@@ -1,4 +1,4 @@
-\* measured: 743,441 distinct states, 110,907,642 transitions, 11 min at load 40 (8 workers);
+\* measured: 743,441 distinct states, 118,663,494 transitions with NxBatch2 (110,907,642 without), 11 min at load 40 (8 workers), 33 min at load 60;
 \* same configuration as MC_quick with larger domains (its action coverage carries over)
 \* leader transfer + replica replacement, with tasks failing at any phase (stranded fences)
 SPECIFICATION Spec
@@ -11,11 +11,12 @@ CONSTANTS
   TGs = {"ok", "stale"}
   Exts = {"le", "fence"}
   WfExtra = {"failed"}
+  BatchRGs = {"none"}
   MaxCE = 12
   MaxLE = 21
   MaxFver = 6
   LateReset = FALSE
 VIEW View
 INVARIANTS TypeOK C17_MetaValid C17_OneActive C17_Irreversible
-PROPERTIES C17_ProofCurrent C17_CutoverOnlyByCommit C17_FenceOwner C17_RejectedUnchanged C17_AbortOnlyBeforeCutover
+PROPERTIES C17_ProofCurrent C17_CutoverOnlyByCommit C17_FenceOwner C17_RejectedUnchanged C17_AbortOnlyBeforeCutover C17_BatchAsSequence
 CHECK_DEADLOCK FALSE
